@@ -63,7 +63,13 @@ def run_variant(args):
     out = []
     try:
         _copy_tree(root, dst)
-        if not _apply(dst, v['edits']):
+        if 'patch' in v:
+            import subprocess
+            p = subprocess.run(['patch', '-p1', '-s', '-f', '-i', v['patch']], cwd=dst, stdout=subprocess.PIPE,
+                               stderr=subprocess.STDOUT, text=True)
+            if p.returncode != 0:
+                return {'id': v['id'], 'status': 'skipped', 'detail': 'patch does not apply to this tree'}
+        elif not _apply(dst, v['edits']):
             return {'id': v['id'], 'status': 'skipped', 'detail': 'anchor text not present in this tree'}
         # syntax check of edited files
         for rel, _, _ in v['edits']:
@@ -117,9 +123,41 @@ def run_variant(args):
         shutil.rmtree(dst, ignore_errors=True)
 
 
+HERE = os.path.dirname(os.path.dirname(os.path.abspath(__file__)))
+ALL_PROPS = ['C%02d' % i for i in range(1, 21)]
+
+
+def patch_variants():
+    """Changes written by independent sub-agents and confirmed by hand (DESIGN.md section 10): every seeded
+    change must be reported by its property's check (except the ones listed, with the reason, in
+    seeded/DECLINED.json); every refactoring under twins/ must leave *all* checks silent."""
+    out = []
+    sd = os.path.join(HERE, 'seeded')
+    declined = {}
+    try:
+        with open(os.path.join(sd, 'DECLINED.json')) as f:
+            declined = json.load(f)
+    except (IOError, ValueError):
+        pass
+    for kind, d in (('break', sd), ('twin', os.path.join(HERE, 'twins'))):
+        if not os.path.isdir(d):
+            continue
+        for name in sorted(os.listdir(d)):
+            mp = os.path.join(d, name, 'meta.json')
+            pp = os.path.join(d, name, 'patch.diff')
+            if not (os.path.isfile(mp) and os.path.isfile(pp)) or name in declined:
+                continue
+            with open(mp) as f:
+                meta = json.load(f)
+            out.append({'id': ('seed:' if kind == 'break' else 'twin:') + name, 'kind': kind, 'rule': None, 'patch': pp,
+                        'edits': [], 'props': [meta['property']] if kind == 'break' else list(ALL_PROPS)})
+    return out
+
+
 def run(only=None, root='/repo', jobs=16, verbose=False, quiet=False):
     t0 = time.time()
-    todo = [v for v in VARIANTS if only is None or only.upper() in v['props']]
+    allv = list(VARIANTS) + patch_variants()
+    todo = [v for v in allv if only is None or only.upper() in v['props']]
     if only is not None:
         todo = [dict(v, props=[only.upper()]) for v in todo]
     base = tempfile.mkdtemp(prefix='vt_selftest_')
